@@ -316,11 +316,35 @@ def rule_d(R, ctx, rid="C17.d", only=None):
     R.floor(rid, "length-consuming steps in positional traversals", n, 1 if only else 15)
 
 
+def rule_e(R, ctx, rid="C17.e"):
+    Y = ctx.yrs
+    R.rule(rid, "R-GUARD the XML tree walk stays inside its subtree: in TreeWalker::next the climb to the parent's item "
+                "(`n = current.parent.as_branch().item`) is reached only when `current.parent == self.root` was tested and is false "
+                "— a walker started on a nested element must stop at its own root instead of continuing with the element's "
+                "following siblings (successors() would disagree with children()/get(i))")
+    fn = Y.fn("<yrs::types::xml::TreeWalker<B, T> as std::iter::Iterator>::next")
+    v = FnView(fn)
+    climbs = [cs for cs in fn.calls() if re.search(r"TypePtr::as_branch$", F.strip_generics(cs.name)) and fn.cfg().in_loop(cs.bb)
+              and term_has_field(v.arg(cs, 0, 8), "Item.parent")]
+    R.floor(rid, "climb steps in TreeWalker::next", len(climbs), 1)
+    for cs, site in ordinal_sites(climbs):
+        ok = False
+        for l in v.guards(cs.bb):
+            t = simp_deep(l.term)
+            if t[0] == "call" and re.search(r"PartialEq(<.*>)?>?::(eq|ne)$", t[1]) and term_has_field(t, "Item.parent") and \
+                    term_has_field(t, "TreeWalker.root"):
+                want = t[1].endswith("ne")
+                ok = ok or (l.polarity is want)
+        R.ob(rid, fn, site, ok, "the climb happens only below the walker's root" if ok else
+             "the walker climbs to the parent's item without testing `current.parent == self.root`: guards %s" % v.guard_descs(cs.bb)[-3:], cs.loc())
+
+
 def check(ctx, R):
     R.run("C17.a", rule_a, ctx)
     R.run("C17.b", rule_b, ctx)
     R.run("C17.c", rule_c, ctx)
     R.run("C17.d", rule_d, ctx)
+    R.run("C17.e", rule_e, ctx)
     from . import preds
     R.run("C17.p", lambda R, c: preds.rule(R, c, "C17.p", ["is_visible", "map_contains_key", "seen", "flags_check"]), ctx)
     return {}
